@@ -154,6 +154,11 @@ def run(case: dict, ctx) -> dict:
         checksums=(bs <= 8 * MB), far_mb=rng.choice([0, 0, 0, 1 << 12, (1 << 20) + 3, 3 << 20, 1 << 30]),
     )
     model = Model(meta["size"], [layer])
+    if sf.end <= (64 << 20) and case["i"] % 4 == 0:
+        from vf.diskcheck import triangulate
+
+        triangulate(rng, RefVHDX(sf.to_bytes()), model, "vhdx")
+        res["cnt"]["writer_triangulations"] = 1
     fh = as_handle(sf)
     o = call(VHDX, fh)
     if not o.ok:
